@@ -182,12 +182,14 @@ TAILS = ["eof", "eol", "sp", "cmt", "cmteol"]
 CIF1_VIDS = [v for v, t in PALETTE.items() if all(ord(c) < 127 for c in t)]
 
 
-def parse_docs(binary, docs, opts=None, chunk=400):
+def parse_docs(binary, docs, opts=None, chunk=400, syntax=False):
     """docs: list of (text, key); returns list of (key, parse_out, project_out, leak)"""
     def run_chunk(ch):
         cmds = []
         for text, key in ch:
             c = {"op": "parse", "cif": "c", "text": text, "errors": "accept"}
+            if syntax:
+                c["syntax"] = 1        # data-name / keyword callbacks are logged with their line and column
             if opts:
                 c["opts"] = opts
             cmds += [c, {"op": "project", "cif": "c"}, {"op": "reset"}]
@@ -559,6 +561,7 @@ def c08(tier, replay=None):
     rnd.shuffle(bases1)
     quoty = [o for o in bases1 if any(s["v"] in ("apos", "aposend", "quot", "both", "q2", "dq2") and s["p"] in ("sq", "dq") for s in o["slots"])]
     nb1 = 30 if tier == "quick" else 200
+    nb2 = len(bases)
     bases += (quoty[:nb1 * 2 // 3] + bases1[:nb1])[:nb1]
     st1 = dict(st1, distinct=st1["distinct"] + st1b["distinct"], generated=st1["generated"] + st1b["generated"])
     offs = (lambda n: range(0, n + 1)) if tier != "quick" else (lambda n: (0, 1) if n == 1 else (0, 1, n))
@@ -569,6 +572,10 @@ def c08(tier, replay=None):
                 jobs.append((text, len(meta))); meta.append((bi, eol, lines, what))
         mixed = render(o["d"]["doc"], mixed_rnd=random.Random(SEED + bi))
         jobs.append((mixed, len(meta))); meta.append((bi, "mixed", 0, "plain"))
+        if bi >= nb2:
+            # CIF 1.1 documents (no version comment needed): the same document after one empty line, in each convention
+            for eol in ("lf", "crlf", "cr"):
+                jobs.append((EOLS[eol] + render(o["d"]["doc"], eol), len(meta))); meta.append((bi, eol, 1, "after an empty first line"))
     # long tokens across the scan buffer (131200 units) and several reads
     longs = []
     sizes = [4090, 4095, 4096, 4097, 8191, 8192, 131199, 150015] if tier == "quick" else [4090 + i for i in range(12)] + [8190, 8191, 8192, 8193, 131190, 131199, 131200, 131201, 131210, 262400, 300000]
@@ -606,12 +613,15 @@ def c08(tier, replay=None):
         jobs.append((doc, len(meta))); meta.append((-1, eol, 0, ("long", n, body)))
     nok = total = 0
     base_errs = {}
-    results = parse_docs(binary, jobs, chunk=60)
-    # first pass: reference error lists (plain LF)
+    results = parse_docs(binary, jobs, chunk=60, syntax=True)
+    # first pass: reference error lists and data-name positions (plain LF)
+    base_names = {}
+    names_of = lambda po: [(e.get("t"), e.get("line"), e.get("col")) for e in po.get("log", []) if e.get("cb") in ("dn", "kw")]
     for key, po, pr, leak in results:
         bi, eol, lines, what = meta[key]
         if bi >= 0 and eol == "lf" and what == "plain" and po:
             base_errs[bi] = [(e["code"], e["line"]) for e in po.get("log", []) if e.get("cb") == "error"]
+            base_names[bi] = names_of(po)
     for key, po, pr, leak in results:
         bi, eol, lines, what = meta[key]
         total += 1
@@ -629,6 +639,10 @@ def c08(tier, replay=None):
             ref = [(c, l + lines) for c, l in base_errs.get(bi, [])]
             if errs != ref:
                 problems.append("errors %s, with LF and no padding %s (shifted by %d pad lines)" % (errs[:4], ref[:4], lines))
+            # line and column reported for every data name and loop_ keyword: the same in every terminator convention
+            nref = [(t, l + lines, c) for t, l, c in base_names.get(bi, [])]
+            if eol != "mixed" and names_of(po) != nref:
+                problems.append("name positions %s, with LF and no padding %s (shifted by %d lines)" % (names_of(po)[:3], nref[:3], lines))
             label = "%s %s" % (o["ctx"], "+".join("%s/%s/%s" % (s["v"], s["p"], s["s"]) for s in o["slots"]))
         else:
             _, n, body = what
